@@ -30,6 +30,19 @@ CLAIMED = {
  'C10': dict(engine='EX-A', technique='explicit-state BFS with a fault at every socket call site; per-descriptor automaton + notification-stream automaton + interest-set comparison as oracles',
    text='Families sock (UDP with per-socket query limits, TCP immediate/in-progress connect, fast open, stay-open, legacy ares_fds and ares_getsock applications, local bind, pending-write callback), life-udp and life-reentrant: every history incl. one (quick) or two (thorough) failures of socket/setsockopt/bind/connect/getsockname/send (refused, would-block, short)/recv. Oracle: each descriptor closed exactly once, none open after destroy, no call on a closed descriptor, UDP transmissions per socket <= limit, sock-state stream never after (0,0) / exactly one (0,0) iff announced, at every return to the application each descriptor with outstanding queries is announced readable and each TCP descriptor with unsent bytes or unfinished connect writable, ares_fds/ares_getsock report only open descriptors the channel holds.',
    note='Which descriptors carry outstanding queries is read from the channel by the peek translation unit. UDP would-block datagrams are left to the retry timer by design (observation, not asserted).', ref='4/C10'),
+
+ 'C09': dict(engine='EX-A', technique='explicit-state BFS over success/failure histories x random-tape choices; reference health table built from the public server-state callbacks',
+   text='Family failover: 2-3 servers, rotation on/off, retry chance 0/1, retry delay 0/5000 ms, tries 1-2; up to three distinct queries (sequential or concurrent), per attempt success / SERVFAIL / timeout / send or connect failure, server-list reorder or removal in flight, a 6 s advance; the rotate pick and the probe coin are enumerated. Oracle: at every fresh attempt the destination has the fewest consecutive failures according to the callback stream (first such in configuration order without rotation, any of them with rotation); a transmission to a worse server is legal only as a probe copy: different query id, a question some user query asked, sent once, only with probing enabled, not before last failure + retry delay, never to a healthy server; successes announced <= acceptable replies read.',
+   note='User queries are told from probe copies by the fact that the family asks every question once. The differential "user query unaffected by probes" run of the design is not built; probe copies are checked structurally only.', ref='4/C09'),
+ 'C12': dict(engine='EX-A', technique='explicit-state BFS over names x configurations x per-candidate outcome sequences against a reference written from resolv.conf(5)',
+   text='Family search: names with 0-3 dots, trailing dot, escaped dot; ndots 0-3; domain lists {none, one, two, root, one+root}; NOSEARCH; HOSTALIASES with and without NOALIASES; entry points search_dnsrec, ares_search, getaddrinfo (A+AAAA), gethostbyname; every sequence of per-candidate outcomes from {data, NODATA, NXDOMAIN, SERVFAIL, REFUSED, silence}. Oracle: the sequence of question names the virtual server saw equals the reference candidate list up to the stop point; for the search entry points the final status is the first data / hard error, else NODATA if any candidate existed without data, else the last status. The documented single-label exception (issue #852) is accepted either way; candidates whose A and AAAA queries got outcomes of different classes are counted, not judged.',
+   note='Reference list is 40 lines written from the man page. Alias lookups use an interposed HOSTALIASES file.', ref='4/C12'),
+ 'C13': dict(engine='EX-A', technique='explicit-state BFS over answer grammar x hints x sortlist x lookup order x hosts file with a provenance marker per resource record',
+   text='Family addrs: getaddrinfo (UNSPEC/INET/INET6, CANONNAME+NOSORT, NUMERICSERV+port), gethostbyname, gethostbyaddr, getnameinfo; lookups b/fb/bf/f, hosts file with v4+v6+alias entries, sortlist, literals, localhost names; answers: single, three records with different TTLs, CNAME chain, mixed A+AAAA+foreign-class record, NODATA, NXDOMAIN; source-address change. Oracle: the multiset (family, packet, record index, TTL) of the result equals the A/AAAA records of the accepted answers for the winning name restricted to the requested family; hosts/literal/loopback answers equal the rule; port applied; NOSORT keeps answer order; reverse lookups ask exactly the reverse-map name with type PTR and return only names an answer carried.',
+   note='RFC 6724 sorting is only checked for not losing/duplicating (multiset), not for its order.', ref='4/C13'),
+ 'C17': dict(engine='EX-A', technique='explicit-state BFS over server cookie behaviours x timers x source address against a reference RFC 7873 client automaton',
+   text='Family cookie: 1-2 servers, EDNS, repeated requests, replies {no cookie, valid S1, valid S2, wrong client part, BADCOOKIE+cookie, bare BADCOOKIE, TC}, advances 119 s / 121 s / 301 s / 86401 s, source-address change, a whole-second clock variant. Oracle, evaluated over every UDP/TCP transmission and every packet the library looked at: no cookie over TCP; client part unchanged unless the source address changed, it is a day old or a cookie-less reply reset the automaton; must change (and drop the server part) when the source address changes; server part is empty or the latest valid one and is echoed once learned; cookie omitted only if support never proven or regressed; wrong-client and BADCOOKIE packets never delivered; after support is proven the first cookie-less reply is never delivered; at most three UDP re-sends caused by BADCOOKIE; a server that never returned a cookie is served plainly.',
+   note='The lengths of the unsupported/regression back-off are not asserted (the statement does not fix them).', ref='4/C17'),
 }
 
 NOT_YET = {
